@@ -19,6 +19,12 @@ def checkCase (j : Json) : Except String Verdict := do
     let m := (String.ofList (htmlEscape str.toList)).toUTF8.toList
     v := v.cmp 0 "escape.text" (hex m) (hex text) ["C20"]
     v := v.cmp 0 "escape.attr" (hex m) (hex attr) ["C20"]
+    -- the spec-side decoder against Go's html.UnescapeString on the same escaped text (absent in older replay files)
+    match jhex j "unesc" with
+    | .ok un =>
+      let dm := (String.ofList (decodeRefs (htmlEscape str.toList))).toUTF8.toList
+      v := v.cmp 0 "escape.decoded" (hex dm) (hex un) ["C20"]
+    | .error _ => pure ()
     if str.toList.any (fun c => escChar c != [c]) then v := { v with nontrivial := true }
     v := v.br (if str.toList.any (fun c => escChar c != [c]) then "escaped" else "verbatim")
     -- monitor: the rendered value contains no structural character
